@@ -13,13 +13,13 @@ def lvl(what, notdecided):
 
 CLAIMED = {
  "C01": ("pairing / provenance / sibling-agreement rules over go/ssa (rule index vs fact map, trie visit<=>collect, cache invalidation)",
-         lvl("the stored rule's pattern is un-indexed (with a pattern derived from the stored fact) before IdToFact[id] is replaced or deleted; a non-scheduled rule is indexed before it is stored; every trie node the search continues into has its ids collected (and the root's too); writer and reader of the trie dispatch on the same value kinds; every fact-map write invalidates the parsed-rule cache.", "completeness of the trie search beyond visit<=>collect, the bindings, ancestor merging, expiry timing."),
+         lvl("the stored rule's pattern is un-indexed (with a pattern derived from the stored fact) before IdToFact[id] is replaced or deleted; a non-scheduled rule is indexed before it is stored; every trie node the search continues into has its ids collected (and the root's too); writer and reader of the trie dispatch on the same value kinds; every fact-map write invalidates the parsed-rule cache; every recursive step of the two trie walks continues with the remaining pairs; wiping the fact map wipes both indexes; dispatch re-matches the candidate against the event.", "completeness of the trie search beyond visit<=>collect, the bindings, ancestor merging, expiry timing."),
          NOTE, "DESIGN.md §4 C01"),
  "C06": ("error-flow (path-sensitive taint of error values over SSA + call-graph carriers), must-pass-through with success-return classification, provenance, transaction-scope escape analysis",
          lvl("every core.Storage error reaches the caller's error result on every path (purge-on-read errors cut off and listed); every success return of State.Add lies behind Storage.Add and every removal from memory is paired with the storage removal; the persisted bytes are marshalled from the prepared fact that is kept in memory; storage calls use the state's own namespace; bolt-owned byte slices do not escape their transaction.", "crash points between two storage writes, equality of reloaded and live locations, fault sequences."),
          NOTE, "DESIGN.md §4 C06"),
  "C07": ("gate (must-pass-through) analysis on the purge helper, return-value truth rule, provenance with control dependence",
-         lvl("stored items reach results only behind the not-expired edge of expire(); the purge helper reports expired even when the clean-up fails; writes are refused before anything is stored when PrepareFact rejects them; the has-expiry flag and the canonical absolute expiry are computed after ttl canonicalisation and from the clock; what is persisted carries the absolute expiry.", "the boundary comparison (<= vs <), the arithmetic of setExpires, purge timing."),
+         lvl("stored items reach results only behind the not-expired edge of expire(); the purge helper reports expired even when the clean-up fails; writes are refused before anything is stored when PrepareFact rejects them; the has-expiry flag and the canonical absolute expiry are computed after ttl canonicalisation and from the clock; what is persisted carries the absolute expiry and no ttl (a ttl is consumed on every accepting path).", "the boundary comparison (<= vs <), the arithmetic of setExpires, purge timing."),
          NOTE, "DESIGN.md §4 C07"),
  "C08": ("pairing / ordering rules with path-sensitive success-return classification and constant-argument specialisation; provenance of deleteWith",
          lvl("the removal primitive always cascades (also for absent ids), the cascade runs only after the id left the map (termination on cycles), dependents come from the re-matching search for {deleteWith:[id]}, removals from memory are paired with storage removals, property facts and rule wrappers carry deleteWith; an error from removing a dependent fails the removal that started the cascade; the term extractor that feeds the index visits every key.", "that exactly the dependents are found (relies on matching and the term index), deletion orders."),
@@ -31,10 +31,10 @@ CLAIMED = {
          lvl("every access to the state that different locations share (System.storage, the location cache table and entries, MemStorage, timer histories, the HTTP breaker map) is made under its mutex on every static path, or is listed as a known finding; counters updated atomically are never accessed plainly; HTTP requests run in their own sub-context; lock classes are acquired in one global order; no append clobbers the tail of the shared cron timeline.", "per-location sequential equivalence; deadlock is decided only as far as lock ORDER goes (LOCK-ORDER: the acquired-while-holding relation over lock classes is acyclic), not for waits on channels, WaitGroups or the same lock class."),
          NOTE + " Lock identity is by (type, mutex field).", "DESIGN.md §3.1, §4 C11"),
  "C12": ("lock-set (guarded-by) analysis incl. storage writes and privilege grants as pseudo-accesses; atomic-section and pairing rules",
-         lvl("every access to the state maps/indexes/rule cache, Location.control/ReadOnly/lastUpdated and Context privilege/props is under the owning lock in a sufficient mode; storage writes and privilege grants happen under the state's write lock; no lock release between the storage write and the memory write of one operation; every privilege grant is revoked on every path; lock classes are acquired in one global order. Existing violations are listed one by one as known findings so that a new unguarded access is still reported.", "linearizability of histories; deadlock beyond lock order (LOCK-ORDER decides that the acquired-while-holding relation over lock classes is acyclic)."),
+         lvl("every access to the state maps/indexes/rule cache, Location.control/ReadOnly/lastUpdated and Context privilege/props is under the owning lock in a sufficient mode; storage writes and privilege grants happen under the state's write lock; no lock release between the storage write and the memory write of one operation; every privilege grant is revoked on every path; lock classes are acquired in one global order; no function outside the states writes through an object that was handed out of a state's guarded container. Existing violations are listed one by one as known findings so that a new unguarded access is still reported.", "linearizability of histories; deadlock beyond lock order (LOCK-ORDER decides that the acquired-while-holding relation over lock classes is acyclic)."),
          NOTE + " Lock identity is by (type, mutex field); Context.isPrivileged assumed false where it steers slock/sunlock.", "DESIGN.md §3.1, §4 C12"),
  "C15": ("coverage (pairing with per-id matching) analysis of add/removal hooks over the state implementations; gate rule for one-shot rules; provenance of the cron job key",
-         lvl("every id that enters / leaves a state's fact map has the add / removal hook run for it first (violations on expiry, cascade and linear Clear/Delete/Load are known findings); one-shot rules are removed after they ran; with a cron shared by all locations the job key depends on the location; the hooks are installed before a location is loaded; a recurring job is put back on the timeline after every tick whatever the tick returned.", "tick timing, which location a tick is evaluated in, replacement by a non-scheduled rule."),
+         lvl("every id that enters / leaves a state's fact map has the add / removal hook run for it first (violations on expiry, cascade and linear Clear/Delete/Load are known findings); one-shot rules are removed after they ran; with a cron shared by all locations the job key depends on the location; the hooks are installed before a location is loaded; a recurring job is put back on the timeline after every tick whatever the tick returned; the cron's timer is re-armed whenever it fired and jobs are pending; the binary-searched timeline is never reordered element-wise.", "tick timing, which location a tick is evaluated in, replacement by a non-scheduled rule."),
          NOTE, "DESIGN.md §4 C15"),
  "C19": ("must-pass-through (gate) analysis over go/ssa CFGs + VTA call graph; who-may-call; operand provenance in the gates",
          lvl("every path from each exported Location method and each root (JS callbacks, goroutines) to a mutating/revealing State call passes the success edge of CheckWrite/CheckRead/Enabled before the first state access; ungated mutators are called only from allow-listed code; the gates compare the right key with the right property and sub-contexts inherit the keys.", "equality of behaviour with the right keys."),
@@ -49,10 +49,10 @@ CLAIMED.update({
          lvl("add, remove and search use the same term extraction; the read operations of the indexes never write through their receiver; a result is emitted only under a test of Matches(pattern, storedFact); the term extractor covers every container the matcher converts; the returned id is the memory and storage key; the loops of the term extractor are left only by exhaustion; the property marker is tested at byte 0.", "that terms(pattern) is a subset of terms(fact) for every matching pair, the intersection logic, uniqueness of generated ids, get-after-write values."),
          NOTE, "DESIGN.md §4 C02"),
  "C04": ("fan-out ownership / synchronisation analysis of goroutines started in loops, loop-shape rule, gate rule on dispositions",
-         lvl("each concurrently running action owns a freshly allocated bindings map; the goroutines' shared writes are under one mutex allocated outside the spawning loop with WaitGroup Add/Done/Wait in place; every loop iteration that creates child nodes appends exactly one; nodes are complete only on the no-error edge; a new fan-out gets a new mutex only after the previous goroutines were waited for; no loop appends one shared object per iteration.", "the variable environment seen by scripts, equality of tree / values / side effects, which bindings the condition yields."),
+         lvl("each concurrently running action owns a freshly allocated bindings map; the goroutines' shared writes are under one mutex allocated outside the spawning loop with WaitGroup Add/Done/Wait in place; every loop iteration that creates child nodes appends exactly one; nodes are complete only on the no-error edge; a new fan-out gets a new mutex only after the previous goroutines were waited for; no loop appends one shared object per iteration; the thunk builders look into the bindings only inside the thunk (the event is copied after they return); an action's value is reported under that action's own disposition; the executed code is a function of the action's code.", "the variable environment seen by scripts, equality of tree / values / side effects, which bindings the condition yields."),
          NOTE, "DESIGN.md §4 C04"),
  "C05": ("bottom-up MOD (may-modify) summaries over SSA with alias projection, through the sheens matcher and VTA-resolved interface dispatch",
-         lvl("neither the pattern, the data nor the caller's bindings can be written through by Match / Matches / the matcher wrappers / cast / ISlice / Bind / ExtendBindings / StripQuestionMarks (the last clause of the property only).", "soundness and completeness of matching: the algorithm lives in the sheens dependency and quantifies over data."),
+         lvl("neither the pattern, the data nor the caller's bindings can be written through by Match / Matches / the matcher wrappers / cast / ISlice / Bind / ExtendBindings / StripQuestionMarks (the last clause of the property only); cast returns a newly built container for every container it recognises; ISlice is sized by the length; the conversion loops visit every element.", "soundness and completeness of matching: the algorithm lives in the sheens dependency and quantifies over data."),
          NOTE, "DESIGN.md §4 C05"),
  "C09": ("recursion classification of call-graph SCCs (visited-set class), ordering rule of the ancestor walk, provenance of namespaces and cron keys, who-may-write inventory of package-level variables",
          lvl("the ancestor walk is bounded by a path set whose insertions are undone, visits the receiving location last, and every callback handed to it re-points the request context at the location it visits; every storage call of a state uses its own name; the shared cron keys jobs by location; the set of written package-level variables is a frozen table of process-wide state.", "non-interference of results, that exactly the transitive parents' facts are seen, immediacy of parent changes."),
@@ -64,10 +64,10 @@ CLAIMED.update({
          lvl("every compile / run / export error reaches the caller's error result or the node's disposition and is never turned into success; a recovered interrupt sets the function's error result; the watchdog hand-shake cannot block the caller; nodes are complete only without error; the request context points at the evaluating location after an inherited search (the timeout is taken from it).", "that the interrupt stops the engine within a bound, the timeout selection arithmetic, what a finishing script sees."),
          NOTE, "DESIGN.md §4 C14"),
  "C16": ("lock-set analysis of the in-memory cron, pairing / control-dependence rules, transaction-scope escape analysis, cross-transaction check-then-act rule, sibling-bucket pairing, key-layout provenance for crolt",
-         lvl("Cron.{Timeline,control,timerTarget} under the cron mutex; remove-then-insert in one critical section on every path; a job is launched only under a comparison with its due time; bolt-owned bytes do not escape their transaction; no decision read in one transaction controls a write in another; jobs<p> and time<p> are written together on every path; variable-width time keys are listed as a known finding; buckets are chosen by the account the job key is built from; no append clobbers the tail of the timeline.", "exactly-once firing, no-fire-after-Rem while a recurring job runs, restart consistency."),
+         lvl("Cron.{Timeline,control,timerTarget} under the cron mutex; remove-then-insert in one critical section on every path; a job is launched only under a comparison with its due time; bolt-owned bytes do not escape their transaction; no decision read in one transaction controls a write in another; jobs<p> and time<p> are written together on every path; variable-width time keys are listed as a known finding; buckets are chosen by the account the job key is built from; no append clobbers the tail of the timeline; bolt errors in crolt reach the caller; the timer is re-armed while jobs are pending; the timeline stays sorted.", "exactly-once firing, no-fire-after-Rem while a recurring job runs, restart consistency."),
          NOTE, "DESIGN.md §4 C16"),
  "C17": ("lock-set analysis of the cache structures, who-may-call + critical-section + edge rule for the single load, gate rule for caching on success only, ordering rule on the pending flag, constant-argument rule for existence checking",
-         lvl("the cache table and entries are accessed under their locks; OpenLocation is called only from CachedLocation.Get under the entry lock on the no-location-yet edge; miss-and-insert is one critical section; a location is cached only on the no-error edge; Pending is stored before it is consulted; every operation asks for the existence check and a checked, not-created location yields an error; no operation uses its location after releasing it; the cache returns only the error of OpenLocation; the in-use mark must count its users (it does not: known finding, reproduced at run time).", "independence of results from the TTL over all histories."),
+         lvl("the cache table and entries are accessed under their locks; OpenLocation is called only from CachedLocation.Get under the entry lock on the no-location-yet edge; miss-and-insert is one critical section; a location is cached only on the no-error edge; Pending is stored before it is consulted; every operation asks for the existence check and a checked, not-created location yields an error; no operation uses its location after releasing it; the cache returns only the error of OpenLocation; the in-use mark must count its users (it does not: known finding, reproduced at run time); a new entry is published only on the not-present edge of a lookup of the table in the same critical section; a wiped state resets its indexes.", "independence of results from the TTL over all histories."),
          NOTE, "DESIGN.md §4 C17"),
  "C18": ("path-sensitive error-flow inside ProcessRequest and ServeHTTP, provenance of getter results, writer/reader table agreement, default-case rule",
          lvl("in every /api/loc/* case the error of every getter, System call, inner request and json.Marshal reaches the error result; no System argument derives from a getter's `given` flag; every parameter read as a map is declared json in the decoder table; ServeHTTP routes every error to protest(), which writes 400 first; an unknown URI ends in an error.", "equality of results with direct System calls, escaping, URI normalisation (DWIMURI)."),
